@@ -492,6 +492,9 @@ pub fn digest_case(seed: u64, i: u64) -> String {
     let tape: Vec<u32> = (0..1200).map(|_| r.next() as u32).collect();
     let mut t = Tape::new(&tape);
     let (bytes, _) = build_bytes(&mut t);
+    // one case in 25 is a tilemap whose pixel extent or tile count passes 65535 (8192-pixel tiles in a row of 9-12,
+    // or a 256-300 tile square of one-pixel tiles): products of 16-bit fields must not depend on the build
+    let bytes = if i % 25 == 9 { extent_case(&mut r) } else { bytes };
     // every fifth case carries chunks of the ignored types whose body is odd (empty, short, random): whether they
     // are looked at must not depend on the process (for instance on whether a logger is installed)
     let mut bytes = if i % 5 == 2 { insert_odd_ignorable(&bytes, &mut r) } else { bytes };
@@ -532,6 +535,28 @@ pub fn digest_case(seed: u64, i: u64) -> String {
         Ok(s) => s,
         Err((loc, msg)) => format!("panic:{}:{}", short_loc(&loc), msg.chars().take(60).collect::<String>()),
     }
+}
+
+fn extent_case(r: &mut Rng) -> Vec<u8> {
+    use crate::model::*;
+    let wide = r.below(2) == 0;
+    let (mw, mh, tw, th, count) = if wide {
+        let n = 9 + r.below(4) as u16;
+        if r.below(2) == 0 { (n, 1u16, 8192u16, 1u16, 3u32) } else { (1, n, 1, 8192, 3) }
+    } else {
+        (256 + r.below(45) as u16, 256 + r.below(45) as u16, 1, 1, 200)
+    };
+    let (cw, ch) = if !wide { (mw, mh) } else if tw > 1 { (65535, 1) } else { (1, 65535) };
+    let mut s = Sprite::empty(cw, ch, Fmt::Rgba);
+    let tile_px = tw as usize * th as usize;
+    let px: Vec<u8> = (0..count as usize * tile_px * 4).map(|k| if k < 4 * tile_px { 0 } else if k % 4 == 3 { 255 } else { r.next() as u8 }).collect();
+    s.tilesets.push(Tileset { id: 3, flags: 2, count, tw, th, base_index: 1, name: String::new(), ext: (0, 0), pixels: px });
+    s.layers.push(Layer { flags: 1, kind: LayerKind::Tilemap { tileset: 3 }, level: 0, blend: 0, opacity: 255, name: "extent".into(), user_data: None });
+    let tiles: Vec<u32> = (0..mw as usize * mh as usize).map(|_| (r.next() % count as u64) as u32).collect();
+    let back = if wide { (-8192i32 * r.below(5) as i32) as i16 } else { 0 };
+    let (x, y) = if tw > 1 { (back, 0) } else { (0, back) };
+    s.frames[0].cels.push(Cel { layer: 0, x, y, opacity: 255, content: CelContent::Tilemap { w: mw, h: mh, bits: 32, masks: [0x1fffffff, 0x20000000, 0x40000000, 0x80000000], tiles }, user_data: None });
+    crate::encode::encode(&s, &crate::encode::Plan::plain()).bytes
 }
 
 /// Insert chunks of the ignored types (cel extra 0x2006, mask 0x2016, path 0x2017) with arbitrary bodies at
